@@ -177,7 +177,7 @@ class OsetEngine(Engine):
                                              # no exception.  (A sequence that *repeats* an element is read as the ordered
                                              # set of its first occurrences by the implementation; the property does not
                                              # say whether [1, 2, 1] "holds the same elements" as {1, 2}: not generated.)
-                                             (0.7, {'k': 'scalar', 'v': rng.choice(['none', 'zero', 'obj', 'unhashable'])})])
+                                             (0.7, {'k': 'scalar', 'v': rng.choice(['none', 'zero', 'obj', 'unhashable', 'chain'])})])
                     op['reflected'] = rng.random() < 0.2
                     op['neg'] = rng.random() < 0.3
                 elif kind == 'cmp':
@@ -596,7 +596,9 @@ class OsetEngine(Engine):
                         other = list(b)
                     elif k == 'scalar':
                         b = None
-                        other = {'none': None, 'zero': 0, 'obj': Elem(99), 'unhashable': [[1], [2]]}[o['v']]
+                        # 'chain': a navigation whose trailing () was forgotten -- not a collection either
+                        other = {'none': None, 'zero': 0, 'obj': Elem(99), 'unhashable': [[1], [2]],
+                                 'chain': None if o['v'] != 'chain' else xtuml.navigate_many(None)}[o['v']]
                     else:
                         b = [U[e] for e in o['e']]
                         other = list(b)
